@@ -5,6 +5,8 @@ import json
 from harness.core import pipeline, gallina as G, values as V
 from harness.jsonclass_support import world as W, descgen as D
 
+from harness.jsonclass_support import anchors
+
 PROP_ID = "C15"
 MANIFEST_ENTRY = {
     "text": ("Theorems by nested induction over all values (Coq, closed under the global context) about a Gallina model of "
@@ -18,8 +20,7 @@ MANIFEST_ENTRY = {
     "technique": "Coq proof over a hand-written executable model + differential correspondence check (vm_compute) + property oracle",
     "design_ref": "DESIGN.md 4/C15",
 }
-ANCHOR_RANGES = [("jsonrpclib/jsonclass.py", 142, 159), ("jsonrpclib/jsonclass.py", 231, 242),
-                 ("jsonrpclib/jsonclass.py", 314, 330)]
+ANCHOR_RANGES = anchors.func_ranges([("jsonrpclib/jsonclass.py", "dump"), ("jsonrpclib/jsonclass.py", "load")])
 RULE = ("round-trip stream: every nesting with <= 3 nodes (thorough: <= 4) over {list, tuple, set, frozenset, dict} with leaves "
         "from a 14-value primitive pool, dicts with string and non-string keys, plus random nestings up to depth 8 / width 8; "
         "load stream: descriptors over a 10-class world failing at each stage of load (name, resolution, constructor, nested "
